@@ -43,7 +43,7 @@ def _scene_vectors(akw):
     return v
 
 
-def _build(ctx, akw, boundaries=(), pml_dirs="", kappa_one=True, nonuniform=False, bloch=False):
+def _build(ctx, akw, boundaries=(), pml_dirs="", kappa_one=True, nonuniform=False, bloch=False, sources=None):
     ix = ctx.index
     it = ctx.fresh_interp()
     sc = Scene(ix, it)
@@ -55,7 +55,7 @@ def _build(ctx, akw, boundaries=(), pml_dirs="", kappa_one=True, nonuniform=Fals
     bkw = dict(bloch_vector=(Rat.atom("k0"), Rat.atom("k1"), Rat.atom("k2")), needs_complex_fields=True, _config=cfg) if bloch else {}
     bs = [sc.boundary(q, a, d, **(bkw if q == BLO else {})) for (q, a, d) in boundaries]
     pmls = [sc.pml(a, d, kappa_one=True, **({} if kappa_one else dict(kappa_start=2, kappa_end=3))) for a in range(3) for d in pml_dirs]
-    srcs = [Src(ix, "s_default", True).obj, Src(ix, "s_sched", False).obj]
+    srcs = [Src(ix, n, d).obj for n, d in (sources or (("s_default", True), ("s_sched", False)))]
     objs = sc.objects(bs + pmls + srcs)
     psiE = {p.attrs["name"]: (Rat.atom(f"{p.attrs['name']}.psiE1"), Rat.atom(f"{p.attrs['name']}.psiE2")) for p in pmls}
     psiH = {p.attrs["name"]: (Rat.atom(f"{p.attrs['name']}.psiH1"), Rat.atom(f"{p.attrs['name']}.psiH2")) for p in pmls}
@@ -147,63 +147,7 @@ def _scenes(tier):
 
 
 # ------------------------------------------------------------------------------- TFSF faces
-def _tfsf(ctx, kind, axis, direction, inverse, eps_comps, mu_comps, complex_inc=False):
-    """Interpret TFSFPlaneSource.update_E / update_H on a symbolic plane; returns the updated field."""
-    ix = ctx.index
-    it = ctx.fresh_interp()
-    sc = Scene(ix, it)
-    from .. import absint
-
-    names = [f"src_{'xyz'[a]}min" for a in range(3)] + [f"src_{'xyz'[a]}max" for a in range(3)]
-    absint.INTEGER_ATOMS.update(names)
-    gst = []
-    for a in range(3):
-        lo = Rat.atom(f"src_{'xyz'[a]}min")
-        gst.append((lo, lo + 1) if a == axis else (lo, Rat.atom(f"src_{'xyz'[a]}max")))
-    it.ext_handlers["np.iscomplexobj"] = lambda it_, a, k: complex_inc
-
-    def sc0(v):
-        return to_rat(v.data[0] if isinstance(v, NdArr) and len(v.data) == 1 and not v.sp else v)
-
-    def amp(it_, a, k):
-        return Rat.atom(("call", "amp", sc0(k.get("time", a[0] if a else None)), sc0(k.get("phase_shift", 0))))
-
-    prof = Obj(None, {"get_amplitude": Builtin("get_amplitude", amp)}, "profile")
-    wc = Obj(None, {"get_period": Builtin("get_period", lambda it_, a, k: Rat.atom("period")), "phase_shift": Rat.atom("phi")}, "wave")
-    cfg = sc.config()
-    T = ix.cls("fdtdx.objects.sources.tfsf.TFSFPlaneSource")
-    if complex_inc:
-        from ..poly import I
-
-        inc = lambda nm: NdArr((3,), [Rat.atom(f"{nm}r{c}") + Rat.atom(I) * Rat.atom(f"{nm}i{c}") for c in range(3)])
-    else:
-        inc = lambda nm: NdArr((3,), [Rat.atom(f"{nm}{c}") for c in range(3)])
-    src = Obj(
-        T,
-        dict(
-            name="src", direction=direction, propagation_axis=axis, _grid_slice_tuple=tuple(gst), _config=cfg,
-            _E=inc("Einc"), _H=inc("Hinc"),
-            _time_offset_E=NdArr((3,), [Rat.atom(f"toffE{c}") for c in range(3)]),
-            _time_offset_H=NdArr((3,), [Rat.atom(f"toffH{c}") for c in range(3)]),
-            _temporal_H_filter=None, temporal_profile=prof, wave_character=wc, static_amplitude_factor=Rat.atom("A"),
-        ),
-        "src",
-    )
-    F = vec(kind)
-    ie = vec("ie", eps_comps)
-    im = vec("im", mu_comps) if mu_comps else Fraction(7, 5)  # non-magnetic scenes carry a plain float
-    m = T.lookup_method(f"update_{kind}")
-    ctx.unit(m.where())
-    from .. import ndarr as _nd
-
-    _nd.JAX_CLAMP = eps_comps == 1 or mu_comps == 1  # isotropic (1, ...) arrays are read with jnp clamping
-    try:
-        res = it.call_method(src, f"update_{kind}", F, ie, im, Rat.atom("t"), inverse)
-    finally:
-        _nd.JAX_CLAMP = False
-    if not (isinstance(res, NdArr) and res.shape == (3,)):
-        raise AnalysisError(f"TFSFPlaneSource.update_{kind} returned {res!r}")
-    return res
+from ..tfsf import plane_update as _tfsf
 
 
 def _tfsf_rules(ctx, kind):
